@@ -128,3 +128,5 @@ LEVEL = {
                  'observation unchanged; success makes all effects visible) + fault enumeration on the real shard: every failable '
                  'storage operation of every batch, process kills, reopen',
 }
+
+CFG['rule'] = CFG['rule'] + ' ' + 'One history in sixteen contains an oversized insert request (1100..1300 points with empty documents in the quick tier, 5000..6700 in the thorough tier) whose last point re-uses a stored id: rejected inside the transaction, nothing may stay; its fault sweep uses eight positions spread over the batch.'
